@@ -82,9 +82,21 @@ class TGen:
     def control(self, depth):
         r = self.r
         kind = self.pick(['input', 'input', 'input', 'button', 'select', 'textarea', 'progress', 'fieldset', 'option',
-                          'optgroup', 'a', 'area', 'div', 'label'])
+                          'optgroup', 'a', 'area', 'div', 'label', 'radiogroup', 'radiogroup', 'submit'])
         a = {}
         kids = []
+        if kind == 'radiogroup':
+            radios = []
+            for _ in range(r.randint(2, 5)):
+                ra = {'type': self.pick(['radio', 'radio', 'RADIO', 'checkbox']), 'name': self.pick(['g', 'G', 'h', 'g', ''])}
+                if r.random() < 0.25:
+                    ra['checked'] = ''
+                if r.random() < 0.1:
+                    del ra['name']
+                radios.append(('e', 'input', ra, []))
+            return ('e', self.pick(['div', 'p', 'span']), {}, radios)
+        if kind == 'submit':
+            return ('e', self.pick(['input', 'button']), {'type': self.pick(['submit', 'SUBMIT', 'submit'])}, [])
         if kind == 'input':
             if r.random() < 0.9:
                 a['type'] = self.pick(INPUT_TYPES)
@@ -173,6 +185,10 @@ class TGen:
         body = []
         for _ in range(r.randint(1, 4)):
             body.append(self.form() if r.random() < 0.7 else self.control(0))
+        if r.random() < 0.3:
+            twins = [b for b in body if b[1] == 'form']
+            if twins:
+                body.insert(r.randrange(len(body) + 1), self.pick(twins))     # two forms with identical markup
         return ('e', 'html', {}, [('e', 'head', {}, []), ('e', 'body', {}, body)])
 
     # ---- language / direction
